@@ -234,7 +234,7 @@ def calc_events(body, fb):
             return None
         return NotImplemented
 
-    ev = Events(body, fb, roles=roles, stmt_events=stmt_events, extra_epsilon={"core::cmp::PartialOrd::partial_cmp", "core::cmp::PartialEq::eq"})
+    ev = Events(body, fb, roles=roles, stmt_events=stmt_events, extra_epsilon={"core::cmp::PartialOrd::partial_cmp", "core::cmp::PartialEq::eq", "core::cmp::PartialEq::ne"})
     return ev, loopvar
 
 
